@@ -10,7 +10,14 @@ RULE = ("random transducers (1-4 string-named states shared between operands so 
         "with the Lean model (multiset) and with the exact relational oracle (set of outputs), union / concatenate / "
         "kleene_star structurally with the model and relationally with the composition of the operand relations, "
         "FiniteAutomaton.to_fst with the identity on the automaton's language. Non-trivial: >=2 states and >=3 transitions.")
-THEOREMS = []
+LEVEL = "proof"
+THEOREMS = ["Pfl.FST.relOutputs_iff",
+            "Pfl.FST.translate_exact",
+            "Pfl.FST.rename_injective",
+            "Pfl.FST.union_rel",
+            "Pfl.FST.concatenate_rel",
+            "Pfl.FST.kleeneStar_rel",
+            "Pfl.ENFA.member_iff"]
 NAMES = ["q0", "q1", "q2", "q3", "a", "a0", "star", "star0"]
 
 
